@@ -18,17 +18,28 @@ ABS = [{"e": "reset"}, {"e": "create", "t": "t1", "ok": True}, {"e": "insert", "
        {"e": "select", "t": "t1", "rows": [1, 2, 3, 4], "exists": True}, {"e": "delete", "t": "t1", "w": 2, "ok": True},
        {"e": "select", "t": "t1", "rows": [1, 3, 4], "exists": True}]
 
+def _o(e, **kw):
+    return dict(dict(e=e, id=0, lsn=0, next=0, nx=0), **kw)
+
+
+ORD = [{"e": "reset"}, {"e": "begin", "k": "create"}, _o("S+"), _o("dirty", id=1, lsn=1), _o("S-"), _o("X+"), _o("page", id=1, lsn=1),
+       _o("hdr", next=2, nx=2), _o("X-"), {"e": "result", "ok": True}, {"e": "begin", "k": "insert"}, _o("S+"), _o("dirty", id=1, lsn=2),
+       _o("wal", id=1, lsn=2), _o("sync"), _o("S-"), {"e": "result", "ok": True}, _o("X+"), _o("page", id=1, lsn=2), _o("hdr", next=3, nx=2),
+       _o("X-"), {"e": "crash", "maxlsn": 2}, _o("X+"), _o("hdr", next=3, nx=2), _o("X-"), {"e": "recovered"}]
+
 
 def nd(evs):
     return "".join(json.dumps(e) + "\n" for e in evs)
 
 
-def accepted(ctx, module, cfg, trace, tag, cfg_text=None):
+def accepted(ctx, module, cfg, trace, tag, cfg_text=None, fname="trace.ndjson"):
     outs = []
-    r = vlib.run_tlc(ctx, module, cfg, workers=1, timeout=120, tag=tag, files={"trace.ndjson": nd(trace)}, on_scn=lambda k, o: outs.append(o), cfg_text=cfg_text)
+    r = vlib.run_tlc(ctx, module, cfg, workers=1, timeout=120, tag=tag, files={fname: nd(trace)}, on_scn=lambda k, o: outs.append(o), cfg_text=cfg_text)
     if r.status == "ok":
         return True
     if outs and "reached" in outs[-1]:
+        return False
+    if r.status == "invariant":
         return False
     raise SystemExit("selftest: TLC failed on %s\n%s" % (tag, "\n".join(r.out[-20:])))
 
@@ -44,7 +55,15 @@ def main():
         bad_abs = [dict(e) for e in ABS]
         bad_abs[5]["rows"] = [1, 2, 3, 5]   # row 5 without row 4: not a prefix of the interrupted statement
         cut_abs = ABS[:6] + ABS[7:]         # the delete is missing: the last select is unexplained
+        bad_ord = [dict(e) for e in ORD]
+        bad_ord[13]["lsn"] = 3              # the log record carries an LSN no page was stamped with
+        cut_ord = ORD[:13] + ORD[14:]       # the hook on the log append is missing: the statement returns with an unlogged stamp
+        early_ord = ORD[:13] + [_o("X+"), _o("page", id=1, lsn=2)] + ORD[13:]   # a flush inside the statement, before its log record
+        def o(t, tag):
+            return accepted(ctx, "WalOrderTrace", "WalOrderTrace.cfg", t, tag, fname="order.ndjson")
         results = {
+            "order-intact": o(ORD, "o0"), "order-corrupted": o(bad_ord, "o1"), "order-event-removed": o(cut_ord, "o2"),
+            "order-flush-inside-statement": o(early_ord, "o3"),
             "lru-intact": accepted(ctx, "LruTrace", "LruTrace.cfg", LRU, "l0", lcfg),
             "lru-corrupted": accepted(ctx, "LruTrace", "LruTrace.cfg", bad_lru, "l1", lcfg),
             "lru-event-removed": accepted(ctx, "LruTrace", "LruTrace.cfg", cut_lru, "l2", lcfg),
@@ -52,7 +71,8 @@ def main():
             "abs-corrupted": accepted(ctx, "AbsTrace", "AbsTrace.cfg", bad_abs, "a1"),
             "abs-event-removed": accepted(ctx, "AbsTrace", "AbsTrace.cfg", cut_abs, "a2"),
         }
-        want = {"lru-intact": True, "lru-corrupted": False, "lru-event-removed": False, "abs-intact": True, "abs-corrupted": False, "abs-event-removed": False}
+        want = {"order-intact": True, "order-corrupted": False, "order-event-removed": False, "order-flush-inside-statement": False,
+                "lru-intact": True, "lru-corrupted": False, "lru-event-removed": False, "abs-intact": True, "abs-corrupted": False, "abs-event-removed": False}
         print("selftest:", results)
         if results != want:
             raise SystemExit("selftest FAILED: expected %s" % want)
